@@ -527,6 +527,11 @@ class TFModel(Model):
                 return t
         if isinstance(v, VModule):
             return eng.strconst("module:" + v.name)
+        if isinstance(v, VDict):
+            if v.val is None:
+                return eng.strconst("{}")
+            f = z3.Function("DICTU", z3.ArraySort(U, BoolS), v.val.sort(), U)
+            return f(v.dom, v.val)
         raise self.E.Unsupported(f"tf argument {v!r}")
 
     def lambda_u(self, st, lam):
@@ -568,6 +573,14 @@ class TFModel(Model):
         if not (d.startswith("tf.") or d.startswith("tensorflow.")):
             return NotImplemented
         d = "tf." + d.split(".", 1)[1]
+        if d == "tf.io.TFRecordWriter":
+            args, kwargs = eng.eval_args(st, node)
+            w = eng.alloc(st, "TFWriter")
+            eng.store_field(st, w, "nwritten", VInt(0))
+            eng.store_field(st, w, "tfclosed", VBool(False))
+            eng.store_field(st, w, "tfpath", args[0] if isinstance(
+                args[0], VU) else VU(st.fresh("tfpath", U)))
+            return w
         args, kwargs = eng.eval_args(st, node)
         t = self.TFCALL(eng.strconst(d), self.pack(st, args, kwargs))
         if d.split(".")[-1] in self.STREAM_CTORS:
@@ -668,14 +681,18 @@ class OpaqueLibModel(Model):
             d = "np." + d[len("numpy."):]
         args, kwargs = eng.eval_args(st, node)
         tf = self.tf()
-        return VU(self.LIBCALL(eng.strconst(d), tf.pack(st, args, kwargs)))
+        t = self.LIBCALL(eng.strconst(d), tf.pack(st, args, kwargs))
+        if d.split(".")[-1][:1].isupper():
+            st.assume(t != NONE_U)      # a constructor returns an object
+            st.assume(TRUTHY(t))        # ... without __bool__/__len__ (Builder)
+        return VU(t)
 
     def call_other_method(self, st, recv, name, node):
         eng = self.eng
         if isinstance(recv, VU) and not getattr(recv, "parts_of", None) and \
                 name not in ("read_text", "mkdir", "is_file", "resolve",
                              "expanduser", "replace", "is_absolute",
-                             "is_relative_to", "compare", "encode"):
+                             "is_relative_to", "compare"):
             args, kwargs = eng.eval_args(st, node)
             tf = self.tf()
             return VU(self.LIBMETH(eng.strconst(name), recv.t,
